@@ -195,7 +195,11 @@ def summary(obs):
         methods = [m.method for m in cp.msgs]
         methods += [f.request.data.method for f in list(obs.flow_objs.values())[len(methods):] if f.request]
         rp = P.parse_responses(c.received, methods + [b"GET"] * 4, c.proxy_closed)
-        cl.append((tuple(_msg_resp(m) for m in rp.msgs), rp.status, c.proxy_closed))
+        # mitmproxy's own header-less "100 Continue" (answer to Expect: 100-continue) is sent when the head has been
+        # processed and the body is still outstanding; whether a malformed body is already known by then depends on
+        # arrival, and the interim response carries no message semantics (its framing is C01's business)
+        cl.append((tuple(_msg_resp(m) for m in rp.msgs if not (m.status == 100 and not m.headers and not m.body)),
+                   rp.status, c.proxy_closed))
     return {"flows": flows, "raw_tcp": mode_hooks, "upstream": up, "client": cl}
 
 
